@@ -1,6 +1,6 @@
 //# target src/output.rs
 
-//# ob name=end_capture_safe_iff_autoescape fn=output::Output::end_capture kind=complete stmt="end_capture returns a string marked safe exactly when auto-escaping was on (Html / Json / Custom) while capturing, a plain string under AutoEscape::None, and undefined for a discarding capture"
+//# ob name=end_capture_safe_iff_autoescape fn=output::Output::end_capture kind=complete stmt="end_capture returns a string marked safe when HTML auto-escaping was on while capturing (the captured text is already escaped: it must not be escaped again), a plain string under AutoEscape::None (the text is raw: it must still be escaped when printed), and undefined for a discarding capture. The code also marks captures made under a Json / Custom format as safe; for Json that is the listed known finding json_capture_under_html_native (safe for which format is not recorded), and this obligation does not endorse it: it only pins the Html and None rows, and that Custom behaves like Html"
     #[kani::proof]
     #[kani::unwind(4)]
     fn end_capture_safe_iff_autoescape() {
